@@ -13,15 +13,25 @@ ASSUMPTIONS = [
     'Denote.v is the meaning of the generated code: re-validated on every run by correspondence B against compiled macro invocations',
 ]
 
+DEFAULT_CLAIM = ('the property is stated as theorems (coq/Properties/<ID>.v, full statements) about the Gallina model and proved for all programs / '
+                 'worlds / schedules they quantify over; the model is tied to the current source on every run by the correspondence checks, '
+                 'whose disagreements are turned into concrete failing inputs by the property\'s own oracle')
+DEFAULT_NOTE = ('trusted: Coq kernel; axiom functional_extensionality_dep only; the correspondence harnesses; Denote.v / Std.v / Threads.v / Async.v as the '
+                'meaning of generated code, std::thread, futures and tokio (modelled, validated by correspondence B/B4, not verified); see DESIGN.md section 7')
+NOT_CLAIMED = {}
+
 PROPS = {
     'C03': dict(level='proof', A=['profile'], B=['profile'], proj='barrier', B4='barrier'),
     'C04': dict(level='proof', A=['profile'], B=['profile'], proj='result'),
     'C05': dict(level='proof', A=['profile'], B=['fail'], proj='result', B4='try_abort', B4_kinds=[(True, False), (True, True)], B4_n=24),
     'C06': dict(level='proof', A=['profile'], B=['fail'], proj='abort', B4='try_abort', B4_kinds=[(True, False), (True, True)], B4_n=24),
+    'C07': dict(level='proof', A=['profile_spawn'], B=['pairs'], proj='result', pairs=True, macro_table=True),
+    'C08': dict(level='proof', A=['profile_spawn'], B=['alive'], proj='exact'),
     'C09': dict(level='proof', A=['profile_async'], B=[], proj=None, B4='lazy_complete', B4_n=60),
     'C10': dict(level='proof', A=['profile'], B=['profile', 'wrap'], proj='multiset'),
     'C11': dict(level='proof', A=['profile'], B=['caps', 'wrap'], proj='caps'),
     'C12': dict(level='proof', A=['profile'], B=['caps'], proj='caps'),
     'C13': dict(level='proof', A=['profile'], B=['profile', 'fail'], proj='exact'),
+    'C18': dict(level='proof', A=['profile_spawn'], B=['panic'], proj='abort'),
     'C17': dict(level='proof', A=['profile', 'bigindex'], B=[], proj=None),
 }
